@@ -27,6 +27,8 @@ object handles, on the repaired tree) and quantify over ALL message sequences `m
 * `wake_sees_new_state`          a woken listener reads, at the moment it is woken, exactly the state
                                  reported after the message (observation point kept by `stepW`)
 * `wake_on_change_observed`      report changes ⇒ woken AND the state seen at the wake-up is the new one
+* `listener_in_sync`             a listener that remembers what it read at its last wake-up knows, after
+                                 any history, exactly the reported state
 * `wake_on_change_pinned_counterexample`   the same statement is FALSE for the pinned
                                  `_handle_remove_player` (defect D8), witness replayed by the harness
 * `wake_on_change_pinned_partial`  on the pinned tree the statement holds for every message
@@ -155,6 +157,42 @@ theorem wake_on_change_observed (now : Int) (msgs : List Msg) (m : Msg)
   rw [stepW_eq]
   unfold step at hw ⊢
   simp [hw]
+
+/-- **C11, a listener is always in sync.**  A listener that knew the initial (idle) report and
+    afterwards only remembers what it read each time it was woken knows, after ANY message
+    sequence, exactly the currently reported state — no wake-up is missing and none shows a
+    stale state.  (With messages dispatched back to back while the listener is still busy the
+    handlers still run in dispatch order, so this is also the statement for concurrent
+    delivery; the harness drives that case with a suspending listener.) -/
+theorem listener_in_sync (now : Int) (msgs : List Msg) :
+    msgs.foldl (listen now) (Mgr.init, report now Mgr.init) = (reach msgs, report now (reach msgs)) := by
+  suffices h : ∀ (ms pre : List Msg),
+      ms.foldl (listen now) (reach pre, report now (reach pre))
+        = (reach (pre ++ ms), report now (reach (pre ++ ms))) by
+    simpa [reach] using h msgs []
+  intro ms
+  induction ms with
+  | nil => intro pre; simp
+  | cons m ms ih =>
+    intro pre
+    have hstep : listen now (reach pre, report now (reach pre)) m
+        = (reach (pre ++ [m]), report now (reach (pre ++ [m]))) := by
+      rw [reach_snoc]
+      simp only [listen]
+      rw [stepW_eq]
+      unfold step
+      cases hn : (stepG true (reach pre) m).2 with
+      | true => simp
+      | false =>
+        simp only [Bool.false_eq_true, if_false]
+        congr 1
+        by_cases hc : report now (reach pre) = report now (step (reach pre) m).1
+        · exact hc
+        · have := wake_on_change now pre m hc
+          unfold step at this
+          rw [hn] at this; cases this
+    rw [List.foldl_cons, hstep, ih (pre ++ [m])]
+    simp
 
 /-- D8 (DESIGN §6): set-now-playing-client A; set-state (A, default player, Stopped);
     remove-player (A, default player). -/
